@@ -352,6 +352,8 @@ func GenWire(rt *rapid.T, o WOpts) *WCase {
 		g.c.Exts = append(g.c.Exts, Ext{Key: "ext", Path: "a/util", Name: "util"}, Ext{Key: "ext2", Path: "b/util", Name: "util", Alias: "util2"})
 		g.w.AddFeature("ext")
 		g.w.AddFeature("twin-types-in-same-named-packages")
+		// the interface is bound on the plainly imported package or on the aliased one
+		bindKey := rapid.SampledFrom([]string{"ext", "ext2"}).Draw(rt, "twin-bind-on")
 		for _, key := range []string{"ext", "ext2"} {
 			g.pid++
 			s := g.addType(Type{Kind: KStruct, Name: g.extTypeName(key), Pkg: key})
@@ -360,10 +362,10 @@ func GenWire(rt *rapid.T, o WOpts) *WCase {
 			g.used[key+"."+p.Name] = true
 			g.c.Provs = append(g.c.Provs, p)
 			g.twinUnits = append(g.twinUnits, g.addUnit(WElem{Kind: "prov", Prov: p.ID}, nil, []TypeID{res}))
-			if key == "ext2" {
+			if key != bindKey {
 				g.twinWant = append(g.twinWant, res)
 			}
-			if key == "ext" {
+			if key == bindKey {
 				it := g.addType(Type{Kind: KIface, Name: g.name("I"), Impl: res, AliasSpell: g.aliasName()})
 				g.c.Types[int(it)].Method = "VH" + g.c.T(it).Name
 				g.addUnit(WElem{Kind: "bind", Iface: it, Impl: res}, []TypeID{res}, []TypeID{it})
